@@ -995,6 +995,9 @@ func (wd *world) gatedStep(s step, next *step) ([]fw.Event, time.Duration, *fw.T
 		// RegisterWaitingTunnel fixed ExpiresAt before issuing the Set: the waiting period runs from here
 		return []fw.Event{{"ev": "Create", "n": n, "t": t, "cls": wd.beh.Cls, "period": 1}}, 0, nil
 	case "Set":
+		if !wd.inFlight[t] && wd.diverged != "" {
+			return nil, 0, nil // already let through when the run left the schedule
+		}
 		if !wd.inFlight[t] {
 			return nil, 0, &fw.Trace{Status: fw.DriverError, Note: "gated: no write of " + t + " in flight"}
 		}
@@ -1009,12 +1012,26 @@ func (wd *world) gatedStep(s step, next *step) ([]fw.Event, time.Duration, *fw.T
 		return []fw.Event{{"ev": "Set", "n": n, "t": t}}, 0, nil
 	case "End":
 		br := sm().GetTunnelBridgeByMappingID(wd.mapOf[t], 0)
+		var evs []fw.Event
+		if br == nil && wd.inFlight[t] {
+			// the code has not put the bridge into the map although the record's write is issued (the
+			// as-is code publishes the bridge first): the tunnel cannot be ended yet.  The write is let
+			// through - the code's own order - and the tunnel ended then; the run has left the model's
+			// schedule and is judged on what it did.
+			pre, _, tr := wd.gatedStep(step{A: "Set", N: n, T: t}, nil)
+			if tr != nil {
+				return nil, 0, tr
+			}
+			evs = append(evs, pre...)
+			wd.diverged = "the bridge of " + t + " was not published while its routing record's write was in flight"
+			br = sm().GetTunnelBridgeByMappingID(wd.mapOf[t], 0)
+		}
 		if br == nil {
 			return nil, 0, &fw.Trace{Status: fw.DriverError, Note: "gated: no bridge for " + t}
 		}
 		br.Close()
 		delete(wd.onNode, t)
-		evs := []fw.Event{{"ev": "TunnelEnd", "n": n, "t": t}}
+		evs = append(evs, fw.Event{"ev": "TunnelEnd", "n": n, "t": t})
 		var waited time.Duration
 		if wd.inFlight[t] && !(next != nil && next.A == "Removed" && next.T == t) {
 			// give a removal that the code may issue right away (it should not) the time to arrive
@@ -1161,6 +1178,17 @@ func drive(env *fw.Env, b fw.Behaviour) *fw.Trace {
 			ev = wd.lookup(s.N, s.T)
 		case "Remove":
 			ev, bad = wd.remove(s.N, s.T)
+		case "DupOpen":
+			ev, bad = wd.dupOpen(s.N, s.T, s.Loc)
+			if bad == nil && ev["r"] == "accepted" {
+				// the code replaced the source end: two source ends for one id, nothing further is judged
+				t.Events = append(t.Events, ev)
+				if tr := over(); tr != nil {
+					return tr
+				}
+				t.Status, t.Note = fw.Diverged, "a second source-side open for "+s.T+" was accepted on "+s.N
+				return t
+			}
 		case "Arrive":
 			ev, bad = wd.arrive(s.N, s.T)
 		case "TargetGone":
@@ -1204,7 +1232,7 @@ func mcJob(name, nodes, tunnels string, ttl, maxReg int, mode string, lifecycleF
 	}
 	return fw.TLCJob{Name: name, Module: "Routing", Cfg: "Routing_mc.cfg", Workers: 4, Consts: map[string]string{
 		"NODES": nodes, "TUNNELS": tunnels, "TTL": fmt.Sprint(ttl), "MAXREG": fmt.Sprint(maxReg), "MODE": mode, "LF": lf,
-		"SKIP": "FALSE", "EVICT": "FALSE", "HCTX": "FALSE", "REJSEEN": "FALSE", "SHAPES": `{"identity", "jsonString", "jsonMap"}`, "INVS": invs}}
+		"SKIP": "FALSE", "EVICT": "FALSE", "HCTX": "FALSE", "REJSEEN": "FALSE", "REGFIRST": "FALSE", "MAXDUP": "0", "PROPS": "", "SHAPES": `{"identity", "jsonString", "jsonMap"}`, "INVS": invs}}
 }
 
 // altDesign checks one of the other designs: its only routes to a violation are its named deviation
@@ -1228,7 +1256,7 @@ func genJob(name, nodes, tunnels string, maxReg, maxClock, maxHist int, mode str
 	}
 	return fw.TLCJob{Name: name, Module: "Routing", Cfg: "Routing_gen.cfg", Workers: 1, Consts: map[string]string{
 		"NODES": nodes, "TUNNELS": tunnels, "MAXREG": fmt.Sprint(maxReg), "MAXCLOCK": fmt.Sprint(maxClock), "MAXHIST": fmt.Sprint(maxHist),
-		"MODE": mode, "LF": lf, "ONLY": only, "TTL": ttl}}
+		"MODE": mode, "LF": lf, "ONLY": only, "TTL": ttl, "REGFIRST": "FALSE", "MAXDUP": map[bool]string{true: "1", false: "0"}[name == "gen:dup"]}}
 }
 
 // splitHonourContext: the context-honouring design at the call sites (shutdown while bridges exist,
@@ -1248,6 +1276,20 @@ func setJob(name, tunnels, lookers string) fw.TLCJob {
 func setGenJob(name, tunnels, lookers string, maxHist int) fw.TLCJob {
 	return fw.TLCJob{Name: name, Module: "RoutingSet", Cfg: "RoutingSet_gen.cfg", Workers: 1, Consts: map[string]string{
 		"TUNNELS": tunnels, "LOOKERS": lookers, "MAXHIST": fmt.Sprint(maxHist)}}
+}
+
+// dupJob: refused duplicate source opens (DupOpen) in the atomic model.  regFirst = false: as-is, a refused
+// open changes nothing (action property RefusedOpenInert); regFirst = true: the design that registers
+// before the exists-check - its only route to a violation is "dupOverwrote"
+func dupJob(name string, regFirst bool) fw.TLCJob {
+	j := mcJob(name, `{"A", "B"}`, `{"t1", "t2"}`, 2, 2, "atomic", false)
+	j.Consts["MAXDUP"], j.Consts["SHAPES"] = "1", `{"jsonString"}`
+	if regFirst {
+		j.Consts["REGFIRST"], j.Consts["INVS"] = "TRUE", "LookupExactOrDev LookupGoneOrDev"
+	} else {
+		j.Consts["PROPS"] = "RefusedOpenInert"
+	}
+	return j
 }
 
 func arriveJob(name, nodes, tunnels string) fw.TLCJob {
@@ -1292,6 +1334,8 @@ func main() {
 				altDesign("mc:reject-seen-ids", "REJSEEN"),
 				arriveJob("mc:arrive:3n1t", `{"A", "B", "C"}`, `{"t1"}`),
 				splitHonourContext("mc:split:honour-context"),
+				dupJob("mc:dup-open", false),
+				dupJob("mc:register-before-exists-check", true),
 				setJob("mc:set:3t2l", `{"t1", "t2", "t3"}`, `{"l1", "l2"}`),
 			}
 			if env.Tier == "thorough" {
@@ -1316,6 +1360,7 @@ func main() {
 					genJob("gen:arrive", `{"A", "B", "C"}`, t1, 2, 2, 9, "arrive", false, "all"),
 					setGenJob("gen:set:3t", `{"t1", "t2", "t3"}`, `{}`, 9),
 					setGenJob("gen:set:3t2l", `{"t1", "t2", "t3"}`, `{"l1", "l2"}`, 12),
+					genJob("gen:dup", ab, t2, 2, 2, 9, "atomic", false, "all"),
 				}
 			}
 			return []fw.TLCJob{
@@ -1326,6 +1371,7 @@ func main() {
 				genJob("gen:arrive", ab, t1, 2, 1, 9, "arrive", false, "all"),
 				setGenJob("gen:set:3t", `{"t1", "t2", "t3"}`, `{}`, 9),
 				setGenJob("gen:set:2t2l", t2, `{"l1", "l2"}`, 10),
+				genJob("gen:dup", ab, t1, 2, 2, 9, "atomic", false, "all"),
 			}
 		},
 		MaxBehSrc: func(env *fw.Env, src string) int {
@@ -1342,6 +1388,8 @@ func main() {
 				return 60
 			case src == altSrc:
 				return 54
+			case src == "gen:dup":
+				return 90
 			case src == "gen:set:3t":
 				return 120
 			case src == "gen:set:2t2l":
@@ -1370,6 +1418,44 @@ func main() {
 						cls = "unicode"
 					}
 					out = append(out, fw.MustJSON(behaviour{Be: be, Mode: "overlap", Cls: cls, Steps: steps, Rep: k + i}))
+				}
+				return out
+			}
+			if src == "gen:dup" {
+				// refused duplicate opens exist at the call site only: site mode on every wiring; every
+				// tunnel touched is looked up from every node at the end
+				dup := false
+				seenT := map[string]bool{}
+				for i, s := range steps {
+					dup = dup || s.A == "DupOpen"
+					if s.A != "DupOpen" {
+						steps[i].Loc = ""
+					} else if i+1 < len(steps) {
+						// both kinds lead to the same model state, so histories pass through "same" only:
+						// the kind of a duplicate that is not the final event alternates
+						steps[i].Loc = []string{"same", "other"}[(expandN+i)%2]
+					}
+					if s.T != "" && s.T != "-" {
+						seenT[s.T] = true
+					}
+				}
+				if !dup {
+					return nil
+				}
+				for _, t := range []string{"t1", "t2", "t3"} {
+					if seenT[t] {
+						steps = append(steps, step{A: "Lookup", N: "A", T: t}, step{A: "Lookup", N: "B", T: t})
+					}
+				}
+				var out []json.RawMessage
+				k := expandN
+				expandN++
+				for i, be := range wire.Names {
+					cls := classes[(k+2*i)%len(classes)]
+					if cls == "big" {
+						cls = "mixed"
+					}
+					out = append(out, fw.MustJSON(behaviour{Be: be, Mode: "site", Cls: cls, Steps: steps}))
 				}
 				return out
 			}
@@ -1549,6 +1635,35 @@ func selfTest(env *fw.Env, acc []*fw.Trace) []*fw.Trace {
 				ne["r"], ne["node"], ne["fieldsEqual"], ne["addrOk"] = "found", "A", true, true
 			}
 			c.Events = append(c.Events, ne)
+		}
+		out = append(out, c)
+	}
+	// a refused duplicate open that changed the record (fields / expiry) must be rejected
+	nd := 0
+	for _, t := range acc {
+		idx := -1
+		for i, e := range t.Events {
+			if e["ev"] == "DupOpen" && e["r"] == "refused" {
+				idx = i
+			}
+		}
+		if idx < 0 || nd >= 12 {
+			continue
+		}
+		nd++
+		id++
+		c := &fw.Trace{Status: fw.Realised, Beh: t.Beh}
+		c.Beh.ID = id
+		for i, e := range t.Events {
+			if i == idx {
+				ne := fw.Event{}
+				for k, v := range e {
+					ne[k] = v
+				}
+				ne[[]string{"recSame", "expSame"}[nd%2]] = false
+				e = ne
+			}
+			c.Events = append(c.Events, e)
 		}
 		out = append(out, c)
 	}
